@@ -20,7 +20,7 @@ class Mutex {
 
   using native_handle_type = void*;
 
-  inline native_handle_type native_handle();
+  native_handle_type native_handle();
 
  protected:
   FiberQueue _queue;
